@@ -297,6 +297,44 @@ func (p ParseIntResult) Accepts(f float64) bool {
 	return false
 }
 
+// ParseIntExact returns the exact signed integer parseInt denotes before rounding (nil if the result is NaN).
+func ParseIntExact(u []uint16, radix int32) *big.Int {
+	u = trimLeft(u)
+	neg := false
+	if len(u) > 0 && (u[0] == '+' || u[0] == '-') {
+		neg = u[0] == '-'
+		u = u[1:]
+	}
+	R := int(radix)
+	strip := true
+	if R != 0 {
+		if R < 2 || R > 36 {
+			return nil
+		}
+		if R != 16 {
+			strip = false
+		}
+	} else {
+		R = 10
+	}
+	if strip && len(u) >= 2 && u[0] == '0' && (u[1] == 'x' || u[1] == 'X') {
+		u = u[2:]
+		R = 16
+	}
+	end := 0
+	for end < len(u) && digitVal(u[end]) < R {
+		end++
+	}
+	if end == 0 {
+		return nil
+	}
+	z := RadixInt(u[:end], R)
+	if neg {
+		z.Neg(z)
+	}
+	return z
+}
+
 // ParseInt implements ECMA-262 19.2.5 parseInt(string, radix) given the ToString-ed string and R = ToInt32(radix).
 func ParseInt(u []uint16, radix int32) ParseIntResult {
 	nan := ParseIntResult{Value: NaN(), Alt: NaN()}
